@@ -106,3 +106,31 @@ Theorem C15_crl_lookup_unparsable_entry_is_error : forall pre post serial,
   find_revoked (pre ++ None :: post) serial = LErr.
 Proof. exact crl_lookup_err. Qed.
 Print Assumptions C15_crl_lookup_unparsable_entry_is_error.
+
+(* Extension TLV composition (x509_ext_to_der_ex / x509_ext_to_der, two-pass encoders): the
+   dry-run size equals the emitted length, the emit pass writes the nested TLV, and
+   x509_ext_from_der consumes exactly that - for every content length up to the C limit,
+   hence across the length-of-length boundaries 127/128, 255/256, 65535/65536 *)
+Theorem C15_ext_ex_size_is_emitted_length : forall oidtlv critical d,
+  ext_ex_size oidtlv critical (len d) = len (oidtlv ++ bool_tlv critical ++ tlv 4 (tlv 48 d)).
+Proof. exact ext_ex_size_ok. Qed.
+Print Assumptions C15_ext_ex_size_is_emitted_length.
+
+Theorem C15_ext_ex_emit_is_nested_tlv : forall oidtlv critical d,
+  ext_ex_emit oidtlv critical d = ext_spec oidtlv critical (tlv 48 d).
+Proof. exact ext_ex_emit_eq_spec. Qed.
+Print Assumptions C15_ext_ex_emit_is_nested_tlv.
+
+Theorem C15_ext_emit_is_nested_tlv : forall oidtlv critical val,
+  ext_size oidtlv critical (len val) = len (oidtlv ++ bool_tlv critical ++ tlv 4 val) /\
+  ext_emit oidtlv critical val = ext_spec oidtlv critical val.
+Proof. exact (fun o c v => conj (ext_size_ok o c v) (ext_emit_eq_spec o c v)). Qed.
+Print Assumptions C15_ext_emit_is_nested_tlv.
+
+Theorem C15_ext_issue_parse : forall oidc critical d rest,
+  len oidc < 2147483648 -> len (tlv 48 d) < 2147483648 ->
+  len (tlv 6 oidc ++ bool_tlv critical ++ tlv 4 (tlv 48 d)) < 2147483648 ->
+  ext_from_der (ext_ex_emit (tlv 6 oidc) critical d ++ rest) =
+    Some ([Some (6, oidc); bool_value critical; Some (4, tlv 48 d)], rest).
+Proof. exact ext_ex_issue_parse. Qed.
+Print Assumptions C15_ext_issue_parse.
